@@ -360,28 +360,28 @@ func kindCompatible(k, r Kind) bool {
 // ---------------------------------------------------------------- engine
 
 type KindEngine struct {
-	w        *World
-	roles    map[*ssa.Function]*funcRoles
-	fieldK   map[*types.Var]KindSet
-	paramAV  map[*ssa.Parameter]*AV // joined from call sites (unexported functions)
-	retAV    map[*ssa.Function][]*AV
-	memo     map[ssa.Value]*AV
-	busy     map[ssa.Value]bool
-	env      map[ssa.Value]*AV // overrides (element-wise evaluation)
+	w          *World
+	roles      map[*ssa.Function]*funcRoles
+	fieldK     map[*types.Var]KindSet
+	paramAV    map[*ssa.Parameter]*AV // joined from call sites (unexported functions)
+	retAV      map[*ssa.Function][]*AV
+	memo       map[ssa.Value]*AV
+	busy       map[ssa.Value]bool
+	env        map[ssa.Value]*AV // overrides (element-wise evaluation)
 	newParamAV map[*ssa.Parameter]*AV
 	newRetAV   map[*ssa.Function][]*AV
-	inCall   map[*ssa.Function]bool
-	depth    int
-	prov     map[ssa.Value]*AV // provisional values of phis being resolved
-	openHits map[ssa.Value]bool
-	changed  bool
+	inCall     map[*ssa.Function]bool
+	depth      int
+	prov       map[ssa.Value]*AV // provisional values of phis being resolved
+	openHits   map[ssa.Value]bool
+	changed    bool
 	Unresolved []string
 }
 
 type funcRoles struct {
-	Params  []*AV
-	NoCheck []bool // role is used inside the body but any zoom is accepted at call sites
-	Results []*AV
+	Params   []*AV
+	NoCheck  []bool // role is used inside the body but any zoom is accepted at call sites
+	Results  []*AV
 	SelfOnly bool // Results are checked against the body; call sites evaluate the callee in context
 }
 
@@ -1298,56 +1298,56 @@ func (ke *KindEngine) evalCall(c *ssa.Call, res int) *AV {
 // roleTable: exported function -> {parameter roles, result roles}.
 // Transcribed from the doc comments (parameter descriptions) of /repo.
 var roleTable = map[string][2]string{
-	"shape.GetExtendedSpatialIdsOnPoints":          {"-,HZ,VZ", "ids:EXT,-"},
-	"shape.GetSpatialIdsOnPoints":                  {"-,Z", "ids:SP,-"},
-	"shape.GetExtendedSpatialIdsOnLine":            {"-,-,HZ,VZ", "ids:EXT,-"},
-	"shape.GetSpatialIdsOnLine":                    {"-,-,Z", "ids:SP,-"},
-	"shape.GetPointOnExtendedSpatialId":            {"id:EXT,-", ""},
-	"shape.GetPointOnSpatialId":                    {"id:SP,-", ""},
-	"shape.ConvertSpatialIdsToExtendedSpatialIds":  {"ids:SP", "ids:EXT,-"},
-	"shape.ConvertExtendedSpatialIdsToSpatialIds":  {"ids:EXT", "ids:SP,-"},
-	"shape.ConvertPointListToProjectedPointList":   {"-,CRS", ""},
-	"shape.ConvertProjectedPointListToPointList":   {"-,CRS", ""},
-	"integrate.ChangeExtendedSpatialIdsZoom":       {"ids:EXT,HZ,VZ", "ids:EXT,-"},
-	"integrate.ChangeSpatialIdsZoom":               {"ids:SP,Z", "ids:SP,-"},
-	"integrate.HorizontalZoom":                     {"HZ,X,Y,HZ?", "~ids:H"},
-	"integrate.HorizontalZoomMinMax":               {"HZ,X,Y,HZ?", "~X,Y,X,Y"},
-	"integrate.VerticalZoom":                       {"VZ,F,VZ?", "~ids:V"},
-	"integrate.MergeExtendedSpatialIds":            {"ids:EXT,HZ,VZ", "ids:EXT,-"},
-	"integrate.MergeSpatialIds":                    {"ids:SP,Z", "ids:SP,-"},
-	"operated.GetShiftingSpatialID":                {"id:EXT,dX,dY,dF", "id:EXT"},
-	"operated.Get6spatialIdsAdjacentToFaces":       {"id:EXT", "ids:EXT"},
-	"operated.Get8spatialIdsAroundHorizontal":      {"id:EXT", "ids:EXT"},
-	"operated.Get26spatialIdsAroundVoxel":          {"id:EXT", "ids:EXT"},
-	"operated.GetNspatialIdsAroundVoxcels":         {"ids:EXT,HL,VL", "ids:EXT,-"},
-	"detector.CheckSpatialIdsOverlap":              {"id:SP,id:SP", ""},
-	"detector.CheckSpatialIdsArrayOverlap":         {"ids:SP,ids:SP", ""},
-	"detector.CheckExtendedSpatialIdsOverlap":      {"id:EXT,id:EXT", ""},
-	"detector.CheckExtendedSpatialIdsArrayOverlap": {"ids:EXT,ids:EXT", ""},
-	"transform.ConvertQuadkeysAndVerticalIDsToExtendedSpatialIDs": {"-,HZ,VZ", "ids:EXT,-"},
-	"transform.ConvertQuadkeysAndVerticalIDsToSpatialIDs":         {"-,Z", "ids:SP,-"},
-	"transform.ConvertExtendedSpatialIDsToQuadkeysAndVerticalIDs": {"ids:EXT,HZ,VZ,MAXH,MINH", ""},
-	"transform.ConvertSpatialIDsToQuadkeysAndVerticalIDs":         {"ids:SP,HZ,VZ,MAXH,MINH", ""},
-	"transform.ConvertExtendedSpatialIDsToQuadkeysAndAltitudekeys": {"ids:EXT,HZ,TVZ,ZBASE,ZOFF", ""},
-	"transform.ConvertExtendedSpatialIDToSpatialIDs":               {"-", "ids:SP"},
-	"transform.ConvertTileXYZsToExtendedSpatialIDs":                {"-,ZBASE,ZOFF,VZ", ""},
-	"transform.ConvertTileXYZsToSpatialIDs":                        {"-,ZBASE,ZOFF,VZ", "ids:SP,-"},
-	"transform.ConvertAltitudekeyToMinMaxZ":                        {"TZ,TVZ,VZ,ZBASE,ZOFF", "F,F,-"},
-	"transform.ConvertZToMinMaxAltitudekey":                        {"F,VZ,TVZ,ZBASE,ZOFF", "TZ,TZ,-"},
-	"transform.GetExtendedSpatialIdsWithinRadiusOfLine":            {"-,-,RADIUS,HZ,VZ,-", "ids:EXT,-"},
-	"transform.FitClearanceAroundExtendedSpatialID":                {"id:EXT,RADIUS", "HL,VL,-"},
-	"transform.GetVoxelIDfromSpatialID":                            {"id:EXT", ""},
-	"common.CalculateArithmeticShift":                              {"-,-", ""},
-	"common/object.NewExtendedSpatialID":                           {"id:EXT", ""},
-	"common/object.(ExtendedSpatialID).ID":                         {"", "id:EXT"},
-	"common/object.(*ExtendedSpatialID).FieldParams":               {"", "seq:EXT"},
-	"common/object.(*ExtendedSpatialID).ResetExtendedSpatialID":    {"id:EXT", ""},
-	"common/object.(ExtendedSpatialID).Higher":                     {"HZ,VZ", ""},
-	"common/object.(*ExtendedSpatialID).SetZoom":                   {"HZ,VZ", ""},
-	"common/object.NewPoint":                                       {"LON,LAT,ALT", ""},
-	"common/object.NewTileXYZ":                                     {"HZ,X,Y,TVZ,TZ", ""},
-	"common/object.NewQuadkeyAndVerticalID":                        {"HZ,QK,VZ,F,MAXH,MINH", ""},
-	"common/object.NewFromExtendedSpatialIDToQuadkeyAndVerticalID": {"HZ,-,VZ,MAXH,MINH", ""},
+	"shape.GetExtendedSpatialIdsOnPoints":                           {"-,HZ,VZ", "ids:EXT,-"},
+	"shape.GetSpatialIdsOnPoints":                                   {"-,Z", "ids:SP,-"},
+	"shape.GetExtendedSpatialIdsOnLine":                             {"-,-,HZ,VZ", "ids:EXT,-"},
+	"shape.GetSpatialIdsOnLine":                                     {"-,-,Z", "ids:SP,-"},
+	"shape.GetPointOnExtendedSpatialId":                             {"id:EXT,-", ""},
+	"shape.GetPointOnSpatialId":                                     {"id:SP,-", ""},
+	"shape.ConvertSpatialIdsToExtendedSpatialIds":                   {"ids:SP", "ids:EXT,-"},
+	"shape.ConvertExtendedSpatialIdsToSpatialIds":                   {"ids:EXT", "ids:SP,-"},
+	"shape.ConvertPointListToProjectedPointList":                    {"-,CRS", ""},
+	"shape.ConvertProjectedPointListToPointList":                    {"-,CRS", ""},
+	"integrate.ChangeExtendedSpatialIdsZoom":                        {"ids:EXT,HZ,VZ", "ids:EXT,-"},
+	"integrate.ChangeSpatialIdsZoom":                                {"ids:SP,Z", "ids:SP,-"},
+	"integrate.HorizontalZoom":                                      {"HZ,X,Y,HZ?", "~ids:H"},
+	"integrate.HorizontalZoomMinMax":                                {"HZ,X,Y,HZ?", "~X,Y,X,Y"},
+	"integrate.VerticalZoom":                                        {"VZ,F,VZ?", "~ids:V"},
+	"integrate.MergeExtendedSpatialIds":                             {"ids:EXT,HZ,VZ", "ids:EXT,-"},
+	"integrate.MergeSpatialIds":                                     {"ids:SP,Z", "ids:SP,-"},
+	"operated.GetShiftingSpatialID":                                 {"id:EXT,dX,dY,dF", "id:EXT"},
+	"operated.Get6spatialIdsAdjacentToFaces":                        {"id:EXT", "ids:EXT"},
+	"operated.Get8spatialIdsAroundHorizontal":                       {"id:EXT", "ids:EXT"},
+	"operated.Get26spatialIdsAroundVoxel":                           {"id:EXT", "ids:EXT"},
+	"operated.GetNspatialIdsAroundVoxcels":                          {"ids:EXT,HL,VL", "ids:EXT,-"},
+	"detector.CheckSpatialIdsOverlap":                               {"id:SP,id:SP", ""},
+	"detector.CheckSpatialIdsArrayOverlap":                          {"ids:SP,ids:SP", ""},
+	"detector.CheckExtendedSpatialIdsOverlap":                       {"id:EXT,id:EXT", ""},
+	"detector.CheckExtendedSpatialIdsArrayOverlap":                  {"ids:EXT,ids:EXT", ""},
+	"transform.ConvertQuadkeysAndVerticalIDsToExtendedSpatialIDs":   {"-,HZ,VZ", "ids:EXT,-"},
+	"transform.ConvertQuadkeysAndVerticalIDsToSpatialIDs":           {"-,Z", "ids:SP,-"},
+	"transform.ConvertExtendedSpatialIDsToQuadkeysAndVerticalIDs":   {"ids:EXT,HZ,VZ,MAXH,MINH", ""},
+	"transform.ConvertSpatialIDsToQuadkeysAndVerticalIDs":           {"ids:SP,HZ,VZ,MAXH,MINH", ""},
+	"transform.ConvertExtendedSpatialIDsToQuadkeysAndAltitudekeys":  {"ids:EXT,HZ,TVZ,ZBASE,ZOFF", ""},
+	"transform.ConvertExtendedSpatialIDToSpatialIDs":                {"-", "ids:SP"},
+	"transform.ConvertTileXYZsToExtendedSpatialIDs":                 {"-,ZBASE,ZOFF,VZ", ""},
+	"transform.ConvertTileXYZsToSpatialIDs":                         {"-,ZBASE,ZOFF,VZ", "ids:SP,-"},
+	"transform.ConvertAltitudekeyToMinMaxZ":                         {"TZ,TVZ,VZ,ZBASE,ZOFF", "F,F,-"},
+	"transform.ConvertZToMinMaxAltitudekey":                         {"F,VZ,TVZ,ZBASE,ZOFF", "TZ,TZ,-"},
+	"transform.GetExtendedSpatialIdsWithinRadiusOfLine":             {"-,-,RADIUS,HZ,VZ,-", "ids:EXT,-"},
+	"transform.FitClearanceAroundExtendedSpatialID":                 {"id:EXT,RADIUS", "HL,VL,-"},
+	"transform.GetVoxelIDfromSpatialID":                             {"id:EXT", ""},
+	"common.CalculateArithmeticShift":                               {"-,-", ""},
+	"common/object.NewExtendedSpatialID":                            {"id:EXT", ""},
+	"common/object.(ExtendedSpatialID).ID":                          {"", "id:EXT"},
+	"common/object.(*ExtendedSpatialID).FieldParams":                {"", "seq:EXT"},
+	"common/object.(*ExtendedSpatialID).ResetExtendedSpatialID":     {"id:EXT", ""},
+	"common/object.(ExtendedSpatialID).Higher":                      {"HZ,VZ", ""},
+	"common/object.(*ExtendedSpatialID).SetZoom":                    {"HZ,VZ", ""},
+	"common/object.NewPoint":                                        {"LON,LAT,ALT", ""},
+	"common/object.NewTileXYZ":                                      {"HZ,X,Y,TVZ,TZ", ""},
+	"common/object.NewQuadkeyAndVerticalID":                         {"HZ,QK,VZ,F,MAXH,MINH", ""},
+	"common/object.NewFromExtendedSpatialIDToQuadkeyAndVerticalID":  {"HZ,-,VZ,MAXH,MINH", ""},
 	"common/object.NewFromExtendedSpatialIDToQuadkeyAndAltitudekey": {"HZ,-,TVZ,ZBASE,ZOFF", ""},
 }
 
